@@ -895,8 +895,165 @@ def inline_closure(F, clo, args):
                 return t
             if t[1][1] - 2 < len(args):
                 return _rebase(args[t[1][1] - 2], [sub_proj(e) for e in proj])
-        return tuple(sub(x) if isinstance(x, tuple) else x for x in t)
+        if t[0] == "call" and len(t) == 4 and isinstance(t[3], int):
+            t = t[:3] + (("at", c.npath, t[3]),)       # the call site lives in the closure's body, not in the caller's
+        return tuple(sub(x) if isinstance(x, tuple) and not (x and x[0] == "at") else x for x in t)
 
     def sub_proj(e):
         return tuple(sub(x) if isinstance(x, tuple) else x for x in e) if isinstance(e, tuple) else e
     return sub(body)
+
+
+_KNOWN = None
+
+
+def _known_functions():
+    global _KNOWN
+    if _KNOWN is None:
+        import json, os
+        p = os.path.join(os.path.dirname(os.path.dirname(os.path.abspath(__file__))), "spec", "known_functions.json")
+        _KNOWN = set(json.load(open(p))["functions"])
+    return _KNOWN
+
+
+def inline_fn_call(F, t):
+    """t = ('call', path, args, site) of a crate function whose result is one expression of its parameters (a single
+    definition of the return place, no loop): that expression over the caller's argument terms; None otherwise.  Used by
+    formula rules to see through small private helpers (`fn first_block_of_cluster(&self, c) -> .. { (c.0 - 2) * per }`)."""
+    if not (isinstance(t, tuple) and t and t[0] == "call" and t[1]):
+        return None
+    memo = F.__dict__.setdefault("_inline_memo", {})
+    if t[1] not in memo:
+        hits = [f for f in F.fns if f.npath == t[1] and f.kind != "Closure"]
+        body = None
+        # only functions the rules do not know by name: spec/known_functions.json lists the functions of the tree the rules
+        # were written against (their vocabulary - accessors, codec entry points, cluster_to_block ..); a helper that a
+        # later refactoring introduced is not in it and is looked through
+        if len(hits) == 1 and t[1] not in _known_functions():
+            c = hits[0]
+            ds = c.defs().get(0, [])
+            if len(ds) == 1 and ds[0][0] in ("assign", "call") and not c.loops() and len(c.live_blocks()) <= 12:
+                body = (c, c.term_of_rvalue(ds[0][3], ds[0][1]) if ds[0][0] == "assign" else c.call_term(ds[0][2], ds[0][1]))
+        memo[t[1]] = body
+    ent = memo[t[1]]
+    if ent is None:
+        return None
+    c, body = ent
+    args = list(t[2])
+    if len(args) != c.arg_count:
+        return None
+
+    def sub(x):
+        if not isinstance(x, tuple) or not x:
+            return x
+        if x[0] == "arg":
+            return args[x[1] - 1] if 1 <= x[1] <= len(args) else x
+        if x[0] == "place" and isinstance(x[1], tuple) and x[1] and x[1][0] == "arg" and 1 <= x[1][1] <= len(args):
+            return _rebase(args[x[1][1] - 1], [sub_proj(e) for e in x[2]])
+        if x[0] == "var":
+            return ("var", ("inl", t[1], x[1]), x[2] if len(x) > 2 else None)      # a callee local that did not resolve: keep it apart from the caller's
+        if x[0] == "call" and len(x) == 4 and isinstance(x[3], int):
+            x = x[:3] + (("at", c.npath, x[3]),)
+        return tuple(sub(y) if isinstance(y, tuple) and not (y and y[0] == "at") else y for y in x)
+
+    def sub_proj(e):
+        return tuple(sub(y) if isinstance(y, tuple) else y for y in e) if isinstance(e, tuple) else e
+    return sub(body)
+
+
+def expand_local_calls(F, t, depth=0):
+    """t with calls of single-expression crate functions replaced by their bodies (innermost first, bounded depth)."""
+    if not isinstance(t, tuple) or not t or depth > 3:
+        return t
+    t = tuple(expand_local_calls(F, x, depth) if isinstance(x, tuple) and not (x and x[0] == "at") else x for x in t)
+    if t[0] == "place" and len(t[2]) >= 2 and tuple(t[2][:2]) in (("as:Some", "0"), ("as:Ok", "0"), ("as:Continue", "0")):
+        v = success_value(F, t)
+        if v is not None:
+            return expand_local_calls(F, v, depth + 1)
+    if t[0] == "call":
+        if t[1] and t[1].endswith(("ops::Fn::call", "ops::FnMut::call_mut", "ops::FnOnce::call_once", "function::Fn::call", "function::FnMut::call_mut", "function::FnOnce::call_once")) and len(t[2]) == 2:
+            clo, tup = strip_refs(t[2][0]), strip_refs(t[2][1])
+            if clo[0] == "agg" and clo[1] == "Closure" and tup[0] == "agg" and tup[1] == "Tuple":
+                b = inline_closure(F, clo, list(tup[3]))
+                if b is not None:
+                    return expand_local_calls(F, b, depth + 1)
+        b = inline_fn_call(F, t)
+        if b is not None:
+            return expand_local_calls(F, b, depth + 1)
+    return t
+
+
+def call_site_info(F, fn, site):
+    """the Call terminator a call term's site id refers to: a block of fn, or ('at', function path, block) after inlining"""
+    if isinstance(site, int):
+        return fn.term(site)
+    if isinstance(site, tuple) and site and site[0] == "at":
+        for g in F.fns:
+            if g.npath == site[1]:
+                return g.term(site[2])
+    return {}
+
+
+_CHECKED = {"checked_add": "Add", "checked_sub": "Sub", "checked_mul": "Mul", "checked_div": "Div", "checked_rem": "Rem",
+            "wrapping_add": "Add", "wrapping_sub": "Sub", "wrapping_mul": "Mul", "saturating_add": None, "saturating_sub": None}
+
+
+def success_value(F, t, depth=0):
+    """The value an Option / Result / ControlFlow expression carries *when it succeeds*, as plain arithmetic over the
+    caller's terms: checked_add(a, b) -> a + b; ok_or / `?` / map_err keep it; and_then / map apply their closure to it; a
+    helper of the crate the rules do not know by name, with one way to succeed, is looked through.  None when t is not of
+    these shapes.  (That the operation *can* fail is a matter for the panic-freedom and refusal rules, not for formulas.)"""
+    if depth > 8 or not isinstance(t, tuple) or not t:
+        return None
+    t = strip_refs(t)
+    if t[0] == "place" and len(t[2]) >= 2 and tuple(t[2][:2]) in (("as:Some", "0"), ("as:Ok", "0"), ("as:Continue", "0")):
+        v = success_value(F, t[1], depth + 1)
+        if v is None:
+            return None
+        return _rebase(v, t[2][2:]) if t[2][2:] else v
+    if t[0] == "agg" and t[2] and t[2].endswith(("Option::Some", "Result::Ok")) and len(t[3]) == 1:
+        return t[3][0]
+    if t[0] != "call" or not t[1]:
+        return None
+    nm = t[1].split("::")[-1]
+    if nm in _CHECKED and _CHECKED[nm] and len(t[2]) == 2 and t[1].startswith("core::num"):
+        return ("bin", _CHECKED[nm], t[2][0], t[2][1])
+    if nm in ("ok_or", "ok_or_else", "map_err", "branch", "ok", "copied", "cloned") and t[2] and t[1].startswith("core::"):
+        return success_value(F, t[2][0], depth + 1)
+    if nm in ("and_then", "map") and len(t[2]) == 2 and t[1].startswith("core::"):
+        inner = success_value(F, t[2][0], depth + 1)
+        if inner is None:
+            return None
+        body = inline_closure(F, t[2][1], [inner])
+        if body is None:
+            return None
+        return success_value(F, body, depth + 1) if nm == "and_then" else body
+    # a crate helper outside the rules' vocabulary: exactly one non-failing definition of its result
+    if t[1] not in _known_functions():
+        hits = [f for f in F.fns if f.npath == t[1] and f.kind != "Closure"]
+        if len(hits) == 1 and len(t[2]) == hits[0].arg_count and not hits[0].loops():
+            c = hits[0]
+            succ = []
+            for d in c.defs().get(0, []):
+                v = c.term_of_rvalue(d[3], d[1]) if d[0] == "assign" else c.call_term(d[2], d[1])
+                v0 = strip_refs(v)
+                if v0[0] == "agg" and v0[2] and v0[2].endswith(("Option::None", "Result::Err")):
+                    continue
+                if v0[0] == "call" and v0[1] and v0[1].endswith("FromResidual::from_residual"):
+                    continue
+                succ.append(v)
+            if len(succ) == 1:
+                args = list(t[2])
+
+                def sub(x):
+                    if not isinstance(x, tuple) or not x:
+                        return x
+                    if x[0] == "arg":
+                        return args[x[1] - 1] if 1 <= x[1] <= len(args) else x
+                    if x[0] == "place" and isinstance(x[1], tuple) and x[1] and x[1][0] == "arg" and 1 <= x[1][1] <= len(args):
+                        return _rebase(args[x[1][1] - 1], [tuple(sub(y) if isinstance(y, tuple) else y for y in e) if isinstance(e, tuple) else e for e in x[2]])
+                    if x[0] == "call" and len(x) == 4 and isinstance(x[3], int):
+                        x = x[:3] + (("at", c.npath, x[3]),)
+                    return tuple(sub(y) if isinstance(y, tuple) and not (y and y[0] == "at") else y for y in x)
+                return success_value(F, sub(succ[0]), depth + 1) or sub(succ[0])
+    return None
